@@ -150,7 +150,7 @@ class FsmExtractor:
                 return 'Some(?)'
         return '?'
 
-    def step(self, site, inputs, utf8=None, skip_inputs=0):
+    def step(self, site, inputs, utf8=None, skip_inputs=0, want_facts=False):
         """from every arrival state of `site`, feed the scripted inputs (list of 1-char strings);
         returns set of outcomes: (next_site_index | 'end', tuple(events), yielded_desc)"""
         prog, body = self.prog, self.body
@@ -220,7 +220,13 @@ class FsmExtractor:
                                 cut = i
                                 break
                     evs = evs[cut:]
-                outcomes.add((self.sites.index(bi), tuple(evs), yd))
+                if want_facts:
+                    facts = tuple(sorted((k[1][1], v) for k, v in s2.vn.items()
+                                         if isinstance(k, tuple) and len(k) == 2 and k[0] == 'fact' and isinstance(k[1], tuple)
+                                         and k[1] and k[1][0] == 'strcontains' and isinstance(k[1][1], str)))
+                    outcomes.add((self.sites.index(bi), tuple(evs), yd, facts))
+                else:
+                    outcomes.add((self.sites.index(bi), tuple(evs), yd))
         return outcomes
 
     def _arg_desc(self, eng, st, a):
